@@ -25,11 +25,12 @@ ASSUMPTIONS = ['one globally activated fake connection on the real Dispatcher; v
                'concurrent part: interleavings at synchronisation-operation granularity']
 
 N_EXAMPLES = {'quick': 1000, 'thorough': 15000}
-KINDS = ['int', 'double', 'string', 'enum', 'struct', 'array']
+KINDS = ['int', 'double', 'string', 'enum', 'struct', 'array', 'scaled']
 VALUES = {'int': [0, 1, 1, 2, 3], 'double': [0.0, 1.5, 1.5, 2.25, 1], 'string': ['', 'a', 'a', 'bc'], 'enum': [0, 1, 1, 2, 'b'],
-          'struct': [{'x': 0, 'y': 0.0}, {'x': 1, 'y': 0.5}, {'x': 1, 'y': 0.5}, {'x': 2, 'y': 0.0}], 'array': [[], [1], [1], [1, 2], (1, 2)]}
+          'struct': [{'x': 0, 'y': 0.0}, {'x': 1, 'y': 0.5}, {'x': 1, 'y': 0.5}, {'x': 2, 'y': 0.0}], 'array': [[], [1], [1], [1, 2], (1, 2)],
+          'scaled': [0.0, 0.5, 0.5, 1.2, 0.52]}     # (the last of each list is a non-canonical form of an allowed value)
 INVALID = {'int': ['x', 1.5, None], 'double': ['x', None, [1]], 'string': [5, None], 'enum': [9, 'zz', None], 'struct': [{'x': 'a', 'y': 0.0}, 5, {'zz': 1}],
-           'array': [5, ['x'], None]}
+           'array': [5, ['x'], None], 'scaled': ['x', None, [1]]}
 
 
 def shards(tier, seed):
@@ -37,8 +38,8 @@ def shards(tier, seed):
 
 
 def make_dt(kind):
-    from frappy.datatypes import IntRange, FloatRange, StringType, EnumType, StructOf, ArrayOf
-    return {'int': lambda: IntRange(0, 100), 'double': lambda: FloatRange(), 'string': lambda: StringType(), 'enum': lambda: EnumType('e', a=0, b=1, c=2),
+    from frappy.datatypes import IntRange, FloatRange, StringType, EnumType, StructOf, ArrayOf, ScaledInteger
+    return {'scaled': lambda: ScaledInteger(0.1, 0, 10), 'int': lambda: IntRange(0, 100), 'double': lambda: FloatRange(), 'string': lambda: StringType(), 'enum': lambda: EnumType('e', a=0, b=1, c=2),
             'struct': lambda: StructOf(x=IntRange(0, 9), y=FloatRange()), 'array': lambda: ArrayOf(IntRange(0, 9), 0, 3)}[kind]()
 
 
@@ -49,7 +50,10 @@ def module_spec(draw):
         params.append({'name': f'p{i}', 'kind': draw(st.sampled_from(KINDS)), 'uu': draw(st.sampled_from(['default', 'default', 'always', 'never', 2.0])),
                        'export': draw(st.sampled_from([True, True, True, False])),
                        'callback': draw(st.sampled_from([None, None, None, 'fails-on-error', 'fails-always']))})
-    return {'params': params, 'omit': draw(st.sampled_from([None, 0, 0.1, 5])), 'general_omit': draw(st.sampled_from([0, 0.1, 1]))}
+    spec = {'params': params, 'omit': draw(st.sampled_from([None, 0, 0.1, 5])), 'general_omit': draw(st.sampled_from([0, 0.1, 1]))}
+    if draw(st.integers(0, 3)) == 0:
+        spec['nested'] = {params[1]['name']: params[0]['name']}      # read_p1 calls read_p0 first
+    return spec
 
 
 @st.composite
@@ -116,7 +120,11 @@ def build(spec, clock, script, yielding=False):
             kw['export'] = False
         attrs[p['name']] = Parameter(p['name'], make_dt(p['kind']), **kw)
 
-        def rf(self, pn=p['name']):
+        script.setdefault(('r', p['name']), VALUES[p['kind']][0])
+
+        def rf(self, pn=p['name'], inner=(spec.get('nested') or {}).get(p['name'])):
+            if inner:
+                getattr(self, 'read_' + inner)()      # a read function using another parameter's read function (raw value -> value)
             r = script[('r', pn)]
             if isinstance(r, Exception):
                 raise type(r)(*r.args)     # a fresh exception object per call, as a driver would raise
@@ -308,7 +316,13 @@ def check_seq(ctx, case):
         if nrepeat:
             ctx.label('seq:repeated-identical-update')
         got = filtered
-        if [g[0] for g in got] != [e[0] for e in exp] or any(not same_state(g[1], e[1]) for g, e in zip(got, exp)):
+        if spec.get('nested'):
+            # two parameters change in one operation: the emission model (one parameter per operation) does not apply,
+            # the replay of the stream must still reproduce the cache
+            ctx.label('seq:nested-read')
+            got = [(pn, state if state[0] == 'value' else ('error', state[1], state[2])) for pn, state in
+                   (msg_state(msg, dts) for msg in conn.log if msg[0] in ('update', 'error_update'))]
+        elif [g[0] for g in got] != [e[0] for e in exp] or any(not same_state(g[1], e[1]) for g, e in zip(got, exp)):
             i = next((j for j, (g, e) in enumerate(zip(got, exp)) if g[0] != e[0] or not same_state(g[1], e[1])), min(len(got), len(exp)))
             what = 'missing' if len(got) < len(exp) and i >= len(got) else 'superfluous' if len(exp) < len(got) and i >= len(exp) else 'differs'
             kind = (exp[i][1][0] if i < len(exp) else got[i][1][0])
@@ -331,6 +345,15 @@ def check_seq(ctx, case):
                     ctx.finding(f'seq:replay-differs-from-cache:{cs[0]}', case, f'{p["name"]}: last message {last[p["name"]]!r}, cache {cs!r}')
                     return
         ctx.ok('replay-equals-cache')
+        # the cache holds converted values (what the datatype returns), never the raw argument of a write or assignment
+        for p in spec['params']:
+            pobj = mobj.parameters[p['name']]
+            if pobj.readerror is None:
+                conv = pobj.datatype(pobj.value)
+                if type(conv) is not type(pobj.value) or conv != pobj.value:
+                    ctx.finding(f'seq:cache-holds-unconverted-value:{p["kind"]}', case, f'{p["name"]}: cache {pobj.value!r}, converted {conv!r}')
+                    return
+        ctx.ok('cache-converted')
         ctx.sample({'spec': spec, 'ops': case['ops'][:10], 'messages': [(pn, s[0]) for pn, s in got][:10]}, every=197)
     finally:
         mb.time = real
